@@ -14,7 +14,7 @@ CLAIMED = {
     "C09": ("exploration",
             "rapid-generated statements from the product keyspace x qualifier x table x shape, checked against a reference model of the documented routing rule at parser level and end to end",
             "The interception decision is compared with an independent model (CQL identifier semantics) for tens of thousands of generated spellings, and end to end as QUERY and PREPARE+EXECUTE with the keyspace set by USE, by a rejected USE, or by the PREPARE keyspace field: handled <=> the request token never reaches a backend.",
-            "Comments before SELECT / between FROM and the table are a recorded finding (excluded by signature).",
+            "CQL comments (five positions, three syntaxes) count as whitespace in the model; comment markers inside string literals are generated too.",
             "DESIGN.md §2.9"),
     "C10": ("exploration",
             "rapid-generated proxy configurations and selector lists; reference model of the ring computed from the configuration; cross-proxy metamorphic relation (every member as self presents the same ring)",
